@@ -121,10 +121,20 @@ impl BrakingPoints {
                         * (fric_brake.force_max + train_state.res_net())
                         / train_state.mass_compound().with_context(|| format_dbg!())?;
 
+                    // A curve point must not reach back past the start of the speed zone it was
+                    // checked against: the zone upstream may have a lower limit, which is only
+                    // compared with the curve once a point lies at or before that boundary
+                    let offset_zone_start = if idx > 0 {
+                        speed_points[idx].offset
+                    } else {
+                        f64::NEG_INFINITY * uc::M
+                    };
+
                     // exit after adding a couple of points if the next braking curve point will exceed the speed limit
                     if speed_limit < bp_curr.speed_limit + vel_change {
                         self.points.push(BrakingPoint {
-                            offset: bp_curr.offset - train_state.dt * speed_limit,
+                            offset: (bp_curr.offset - train_state.dt * speed_limit)
+                                .max(offset_zone_start),
                             speed_limit,
                             // the curve broke through into a zone whose own limit may be below the
                             // target of the slowdown being braked for
@@ -135,11 +145,21 @@ impl BrakingPoints {
                         }
                     } else {
                         // Add normal point to braking curve
-                        self.points.push(BrakingPoint {
-                            offset: bp_curr.offset
-                                - train_state.dt * (bp_curr.speed_limit + 0.5 * vel_change),
-                            speed_limit: bp_curr.speed_limit + vel_change,
-                            speed_target: bp_curr.speed_target,
+                        let offset_next = bp_curr.offset
+                            - train_state.dt * (bp_curr.speed_limit + 0.5 * vel_change);
+                        self.points.push(if offset_next < offset_zone_start {
+                            // stop at the zone boundary, holding the current curve speed (safe side)
+                            BrakingPoint {
+                                offset: offset_zone_start,
+                                speed_limit: bp_curr.speed_limit,
+                                speed_target: bp_curr.speed_target,
+                            }
+                        } else {
+                            BrakingPoint {
+                                offset: offset_next,
+                                speed_limit: bp_curr.speed_limit + vel_change,
+                                speed_target: bp_curr.speed_target,
+                            }
                         });
                     }
 
